@@ -606,6 +606,12 @@ fn run_case(line: &str) -> Out {
             if ans.contains('0') && ans.contains('1') {
                 tags.push_str(" nt");
             }
+            // known finding: a dictionary whose values array is empty (all rows null) reaches
+            // `normalized_keys` (assert_ne!(v_len, 0)) whenever the pattern is an array; the
+            // dictionary+array configuration is always among the ones run for this line
+            if hays.iter().all(|h| h.is_none()) || (!c.scalar && c.dict_pat && pats.iter().all(|p| p.is_none())) {
+                tags.push_str(" kf:dict-empty-values");
+            }
             ans
         }
         "rx" => {
@@ -722,6 +728,27 @@ fn run_case(line: &str) -> Out {
             }
             if ans.starts_with("ERR") {
                 tags.push_str(" boundary-error");
+            }
+            // known finding: start / length at or beyond the i32 offset range (all encodings of the
+            // family are run for every line, so the i32 limit is the relevant one)
+            const SAFE: u64 = (1 << 31) - 65536;
+            if start.unsigned_abs() >= SAFE || len.is_some_and(|l| l >= SAFE) {
+                tags.push_str(" kf:substr-huge-arg");
+            }
+            // known finding: a sliced dictionary still holds the junk rows as unreferenced values
+            if is_str && k == 3 && sliced {
+                let bad = [JUNK_HEAD, JUNK_TAIL].iter().any(|v| {
+                    let n = v.len() as i128;
+                    let st = if start > 0 { (start as i128).min(n) } else if start == 0 { 0 } else { (n + start as i128).max(0) };
+                    let en = match len {
+                        Some(l) => (st + l as i128).min(n),
+                        None => n,
+                    };
+                    !v.is_char_boundary(st as usize) || !v.is_char_boundary(en as usize)
+                });
+                if bad {
+                    tags.push_str(" kf:substr-dict-unreferenced");
+                }
             }
             if start < 0 {
                 tags.push_str(" neg-start");
@@ -1006,10 +1033,14 @@ fn instantiate(rng: &mut Rng, p: &str, alpha: &[char]) -> String {
 
 fn gen_rows(rng: &mut Rng, alpha: &[char], n: usize, maxlen: usize, pats: &[String]) -> Vec<Row> {
     let mut rows = gen_rows0(rng, alpha, n, maxlen, pats);
-    // never an all-null column: as a dictionary it would have an empty values array, on which
-    // `AnyDictionaryArray::normalized_keys` asserts (reported separately as a finding)
-    if n > 0 && rows.iter().all(|r| r.is_none()) {
+    // all-null columns are rare: as a dictionary they have an empty values array, on which
+    // `AnyDictionaryArray::normalized_keys` asserts (known finding kf:dict-empty-values)
+    if n > 0 && rows.iter().all(|r| r.is_none()) && !rng.chance(1, 4) {
         rows[0] = Some(rand_string(rng, alpha, maxlen));
+    }
+    // a modest share of all-null columns (known finding kf:dict-empty-values)
+    if n > 0 && n <= 3 && rng.chance(1, 80) {
+        rows.iter_mut().for_each(|r| *r = None);
     }
     rows
 }
@@ -1083,10 +1114,6 @@ struct Gen {
 }
 
 fn like_line(op: &str, var: usize, pats: &[Row], hays: &[Row]) -> String {
-    // an all-null pattern column given as a dictionary has an empty values array, on which
-    // `normalized_keys` asserts (reported separately as a finding; see corpus notes): the
-    // generator does not pick the dictionary-pattern configuration for such a column
-    let var = if pats.iter().all(|p| p.is_none()) { var & !16 } else { var };
     format!("C20 {} {} {} {}", op, var, show_rows(pats), show_rows(hays))
 }
 
@@ -1228,9 +1255,15 @@ impl Gen {
                     2 => "1000".to_string(),
                     _ => rng.range(0, maxb + 2).to_string(),
                 };
-                // (a sliced dictionary keeps its unreferenced values, and `substring` fails when an
-                // unreferenced value is cut inside a character — reported separately as a finding)
-                let sliced = ((is_str && k != 3) || (!is_str && k != 2)) && rng.chance(1, 3);
+                let sliced = (is_str || k != 2) && rng.chance(1, 3);
+                // a modest share of huge arguments (known finding kf:substr-huge-arg)
+                let (start, len) = if rng.chance(1, 25) {
+                    let hs: [i64; 9] = [i32::MAX as i64, 1 << 31, (1 << 32) + 1, i64::MAX, i64::MIN, -(1 << 31), -(1 << 31) - 1, -(1 << 32) - 1, 1];
+                    let hl: [u64; 7] = [i32::MAX as u64, 1 << 31, 1 << 32, i64::MAX as u64, 1 << 63, u64::MAX, 2];
+                    if rng.bool() { (*rng.pick(&hs), len) } else { (start, rng.pick(&hl).to_string()) }
+                } else {
+                    (start, len)
+                };
                 format!("C20 substr {}{}{} {} {} {}", if is_str { 's' } else { 'b' }, k, if sliced { "x" } else { "" }, start, len, show_rows(&rows))
             }
             88..=93 => {
